@@ -294,9 +294,11 @@ Qed.
 
 Lemma found_when_present name ls : name_ok name -> In (used_by_prefix ++ name) ls ->
   found_in (used_by_prefix ++ name) (group (sep_flags true ls)) = true
-  /\ insert_below (fun _ => true) [] (group (sep_flags true ls)) <> None.
+  /\ insert_below (fun _ => true) [] (group (sep_flags true ls)) <> None
+  /\ has_par (group (sep_flags true ls)) = true.
 Proof.
-  intros Hn H. destruct (in_group _ _ (in_sep_flags name ls true H)) as (p & Hp & Hl). split.
+  intros Hn H. destruct (in_group _ _ (in_sep_flags name ls true H)) as (p & Hp & Hl). split; [|split].
+  3: { unfold has_par. apply existsb_exists. exists (Par p). split; [exact Hp|reflexivity]. }
   - unfold found_in. apply existsb_exists. exists (Par p). split; [exact Hp|].
     unfold para_scan. apply para_scan_found; assumption.
   - clear Hl. induction (group (sep_flags true ls)) as [|s gs IH]; [contradiction|].
@@ -309,7 +311,7 @@ Lemma used_by_fixed_when_present name ls : name_ok name -> In (used_by_prefix ++
   used_by name ls = Some ls.
 Proof.
   intros Hn H. unfold used_by. destruct (_ <? 3)%nat; [reflexivity|].
-  destruct (found_when_present name ls Hn H) as [Hf Hi]. rewrite Hf.
+  destruct (found_when_present name ls Hn H) as (Hf & Hi & Hp). rewrite Hp, Hf. cbn [negb].
   destruct (has_used_para _ _); [reflexivity|].
   destruct (insert_below (fun _ => true) [] _); [reflexivity|congruence].
 Qed.
@@ -321,6 +323,7 @@ Proof.
   intros Hn H. pose proof H as H0. unfold used_by in H.
   destruct (_ <? 3)%nat; [inversion H; subst; exact H0|].
   set (e := used_by_prefix ++ name) in *. set (gs := group (sep_flags true ls)) in *.
+  destruct (negb (has_par gs)); [inversion H; subst; exact H0|].
   destruct (found_in e gs).
   { destruct (has_used_para e gs); [inversion H; subst; exact H0|].
     destruct (insert_below (fun _ => true) [] gs); [inversion H; subst; exact H0|discriminate]. }
@@ -341,6 +344,7 @@ Proof.
   intro H. unfold used_by in H.
   destruct (_ <? 3)%nat; [inversion H; left; reflexivity|].
   set (e := used_by_prefix ++ name) in *. set (gs := group (sep_flags true ls)) in *.
+  destruct (negb (has_par gs)); [inversion H; left; reflexivity|].
   destruct (found_in e gs).
   { destruct (has_used_para e gs); [inversion H; left; reflexivity|].
     destruct (insert_below (fun _ => true) [] gs); [inversion H; left; reflexivity|discriminate]. }
@@ -354,9 +358,9 @@ Proof.
     inversion H; subst ls'. right. exact (Hin _ _ _ E).
 Qed.
 
-(* the only way to the panic (paras[0] on a file without paragraphs): >= 3 lines, all of them separators *)
+(* a file without paragraphs (>= 3 lines, all of them separators) is left alone *)
 Definition only_separators : list str := [[]; []; []].
-Lemma used_by_panics_example : used_by [120] only_separators = None.
+Lemma used_by_no_paragraph_example : used_by [120] only_separators = Some only_separators.
 Proof. vm_compute. reflexivity. Qed.
 
 (* if the name contains a blank the inserted line is never recognised: the guard name_ok is needed *)
